@@ -1,9 +1,227 @@
+/-
+Helper lemmas for C10 (Props/C10.lean): serializability of the lock-protocol model
+(`TxStore` against `linearize`) and soundness of the history checker.
+-/
 import AskarModel.Model.History
+import AskarModel.Lemmas.Session
 namespace Askar.Store
 namespace Lemmas
+
+variable (like : Bytes → Bytes → Bool) (page : Nat) (now : Int)
+
+/-! ### unfolding `runMulti` -/
+
+theorem runMulti_cons_fst (db : Db) (s : Sess) (op : Op) (rest : List (Sess × Op)) :
+    (runMulti like page now db ((s, op) :: rest)).1
+      = (runMulti like page now (step like page now s db op).1 rest).1 := rfl
+
+/-- a single-element `runMulti` is `Store.step` -/
+theorem runMulti_single_fst (db : Db) (s : Sess) (op : Op) :
+    (runMulti like page now db [(s, op)]).1 = (step like page now s db op).1 := rfl
+
+theorem runMulti_append (db : Db) (a b : List (Sess × Op)) :
+    (runMulti like page now db (a ++ b)).1
+      = (runMulti like page now (runMulti like page now db a).1 b).1 := by
+  induction a generalizing db with
+  | nil => rfl
+  | cons x a ih =>
+    obtain ⟨s, op⟩ := x
+    rw [List.cons_append, runMulti_cons_fst, runMulti_cons_fst]
+    exact ih _
+
+/-! ### serializability of the lock-protocol model -/
+
+theorem model_serializable (st : TxStore)
+    (pend : Option (Nat × List (Sess × Op))) (h : pendOk like page now st pend) (cs : List Call) :
+    (TxStore.run like page now st cs).1.db = (runMulti like page now st.db (linearize pend cs)).1 := by
+  induction cs generalizing st pend with
+  | nil => cases pend <;> rfl
+  | cons cl cs ih =>
+    rw [run_cons_fst]
+    cases pend with
+    | none =>
+      have hw : st.wtxn = none := h
+      cases cl with
+      | stmt i t s op =>
+        cases t with
+        | true =>
+          obtain ⟨h1, _, h3⟩ := begin_takes_lock like page now st i s op hw
+          have hp : pendOk like page now (TxStore.step like page now st (.stmt i true s op)).1
+              (some (i, [(s, op)])) := by
+            show _ = some (i, _)
+            rw [h1, h3, runMulti_single_fst]
+          rw [ih _ _ hp, h3]
+          rfl
+        | false =>
+          obtain ⟨h1, _, _⟩ := plain_call_immediate like page now st i s op hw
+          have hw' : (TxStore.step like page now st (.stmt i false s op)).1.wtxn = none := by
+            simp [TxStore.step, hw]
+          have hp : pendOk like page now (TxStore.step like page now st (.stmt i false s op)).1 none := hw'
+          rw [ih _ _ hp, h1]
+          rfl
+      | commit j =>
+        have hs : (TxStore.step like page now st (.commit j)).1 = st := by
+          simp [TxStore.step, hw]
+        rw [hs]
+        exact ih st none h
+      | rollback j =>
+        have hs : (TxStore.step like page now st (.rollback j)).1 = st := by
+          simp [TxStore.step, hw]
+        rw [hs]
+        exact ih st none h
+    | some p =>
+      obtain ⟨i, acc⟩ := p
+      have hw : st.wtxn = some (i, (runMulti like page now st.db acc).1) := h
+      cases cl with
+      | stmt j t s op =>
+        cases t with
+        | true =>
+          by_cases hij : i = j
+          · subst hij
+            rw [step_owner like page now st i _ hw]
+            have hl : linearize (some (i, acc)) (Call.stmt i true s op :: cs)
+                = linearize (some (i, acc ++ [(s, op)])) cs := by
+              simp [linearize]
+            rw [hl]
+            refine ih _ (some (i, acc ++ [(s, op)])) ?_
+            show _ = some (i, _)
+            rw [runMulti_append, runMulti_single_fst]
+          · have hji : j ≠ i := fun e => hij e.symm
+            rw [step_other like page now st i _ hw j true s op (Or.inr hji)]
+            have hl : linearize (some (i, acc)) (Call.stmt j true s op :: cs)
+                = linearize (some (i, acc)) cs := by
+              simp [linearize, hij]
+            rw [hl]
+            exact ih st (some (i, acc)) h
+        | false =>
+          rw [step_other like page now st i _ hw j false s op (Or.inl rfl)]
+          exact ih st (some (i, acc)) h
+      | commit j =>
+        by_cases hij : i = j
+        · subst hij
+          have hs : (TxStore.step like page now st (.commit i)).1
+              = { db := (runMulti like page now st.db acc).1, wtxn := none } := by
+            simp [TxStore.step, hw]
+          have hl : linearize (some (i, acc)) (Call.commit i :: cs) = acc ++ linearize none cs := by
+            simp [linearize]
+          rw [hs, hl, runMulti_append]
+          exact ih { db := (runMulti like page now st.db acc).1, wtxn := none } none rfl
+        · rw [step_commit_other like page now st i _ hw j hij]
+          have hl : linearize (some (i, acc)) (Call.commit j :: cs) = linearize (some (i, acc)) cs := by
+            simp [linearize, hij]
+          rw [hl]
+          exact ih st (some (i, acc)) h
+      | rollback j =>
+        by_cases hij : i = j
+        · subst hij
+          have hs : (TxStore.step like page now st (.rollback i)).1 = { st with wtxn := none } := by
+            simp [TxStore.step, hw]
+          have hl : linearize (some (i, acc)) (Call.rollback i :: cs) = linearize none cs := by
+            simp [linearize]
+          rw [hs, hl]
+          exact ih { st with wtxn := none } none rfl
+        · rw [step_rollback_other like page now st i _ hw j hij]
+          have hl : linearize (some (i, acc)) (Call.rollback j :: cs) = linearize (some (i, acc)) cs := by
+            simp [linearize, hij]
+          rw [hl]
+          exact ih st (some (i, acc)) h
+
+theorem model_serializable_closed (db : Db) (cs : List Call) :
+    (TxStore.run like page now { db := db } cs).1.db
+      = (runMulti like page now db (linearize none cs)).1 :=
+  model_serializable like page now { db := db } none rfl cs
+
+theorem failed_call_no_effect (st : TxStore) (j : Nat) (t : Bool) (s : Sess) (op : Op)
+    (h : st.lockedByOther j = true) (hw : t = true ∨ op.isWrite = true) :
+    (TxStore.step like page now st (.stmt j t s op)).1 = st := by
+  rw [blocked_call_no_effect like page now st j t s op h hw]
+
 end Lemmas
 end Askar.Store
+
 namespace Askar.History
 namespace Lemmas
+
+/-! ### the history checker -/
+
+theorem replay_cons_some {init st : State} {t : Txn} {ts : List Txn}
+    (h : replay init (t :: ts) = some st) :
+    t.readsOk init = true ∧ replay (t.apply init) ts = some st := by
+  simp only [replay] at h
+  by_cases hr : t.readsOk init = true
+  · rw [if_pos hr] at h
+    exact ⟨hr, h⟩
+  · rw [if_neg hr] at h
+    cases h
+
+theorem readsOk_mem {t : Txn} {st : State} {k : String} {r : Int}
+    (h : t.readsOk st = true) (hm : (k, r) ∈ t.reads) : get st k = some r := by
+  unfold Txn.readsOk at h
+  have := (List.all_eq_true.1 h) _ hm
+  simpa using this
+
+theorem checker_sound (keys : List String) (init : State) (txns : List Txn) (final : State)
+    (h : accept keys init txns final = true) : Serializable keys init txns final := by
+  unfold accept at h
+  refine ⟨txns, List.Perm.refl _, ?_⟩
+  cases hr : replay init txns with
+  | none => rw [hr] at h; cases h
+  | some st => rw [hr] at h; exact ⟨st, rfl, h⟩
+
+theorem snapshot_sound (keys : List String) (init : State) (txns : List Txn) (snap : State)
+    (h : snapshotOk keys init txns snap = true) :
+    ∃ n st, replay init (txns.take n) = some st ∧ sameOn keys st snap = true := by
+  unfold snapshotOk at h
+  cases hv : get snap "ver" with
+  | none => rw [hv] at h; cases h
+  | some v =>
+    rw [hv] at h
+    by_cases hneg : v < 0
+    · simp [hneg] at h
+    · simp only [hneg, if_false] at h
+      cases hr : replay init (txns.take v.toNat) with
+      | none => rw [hr] at h; cases h
+      | some st => rw [hr] at h; exact ⟨v.toNat, st, hr, h⟩
+
+theorem no_lost_update (k : String) (init st : State) (txns : List Txn) (v0 : Int)
+    (hinc : ∀ t ∈ txns, t.Increments k) (h0 : get init k = some v0) (hr : replay init txns = some st) :
+    get st k = some (v0 + txns.length) := by
+  induction txns generalizing init v0 with
+  | nil =>
+    have : init = st := by simpa [replay] using hr
+    subst this
+    simpa using h0
+  | cons t ts ih =>
+    obtain ⟨hok, hrest⟩ := replay_cons_some hr
+    obtain ⟨r, hmem, hwr⟩ := hinc t (List.mem_cons_self ..)
+    have hget : get init k = some r := readsOk_mem hok hmem
+    have hrv : r = v0 := by
+      rw [h0] at hget
+      exact (Option.some.inj hget).symm
+    subst hrv
+    have := ih (t.apply init) (r + 1) (fun t' ht' => hinc t' (List.mem_cons_of_mem _ ht')) (hwr init) hrest
+    rw [this]
+    congr 1
+    simp only [List.length_cons]
+    omega
+
+theorem lost_update_rejected (k : String) (r : Int) (init : State) (t1 t2 : Txn)
+    (h1 : (k, r) ∈ t1.reads) (h2 : (k, r) ∈ t2.reads)
+    (w1 : ∀ st, get (t1.apply st) k = some (r + 1)) (w2 : ∀ st, get (t2.apply st) k = some (r + 1)) :
+    replay init [t1, t2] = none ∧ replay init [t2, t1] = none := by
+  have key : ∀ (a b : Txn), (k, r) ∈ b.reads → (∀ st, get (a.apply st) k = some (r + 1)) →
+      replay init [a, b] = none := by
+    intro a b hb wa
+    cases hrp : replay init [a, b] with
+    | none => rfl
+    | some st =>
+      obtain ⟨_, hrest⟩ := replay_cons_some hrp
+      obtain ⟨hokb, _⟩ := replay_cons_some hrest
+      have hget := readsOk_mem hokb hb
+      rw [wa init] at hget
+      have : r + 1 = r := Option.some.inj hget
+      omega
+  exact ⟨key t1 t2 h2 w1, key t2 t1 h1 w2⟩
+
 end Lemmas
 end Askar.History
